@@ -133,6 +133,21 @@ def gen_app(rng, length, marker_tail):
     return bytes(b)
 
 
+def _canon_bca_fcf(app, fam, rev, rng):
+    """mcxc: the payload contains a boot configuration area (optional, tag 'kcfg') and a flash configuration field; put
+    both into the normal form of their own register codecs (their round trip is property C12, not C01)."""
+    from spsdk.image.bca.bca import BCA
+    from spsdk.image.fcf.fcf import FCF
+    b = bytearray(app)
+    if rng.random() < 0.6:
+        b[0x3C0:0x3C4] = b"kcfg"
+        b[0x3C0:0x400] = BCA.parse(bytes(b[0x3C0:0x400]), family=fam, revision=rev).export()
+    elif bytes(b[0x3C0:0x3C4]) == b"kcfg":
+        b[0x3C0] ^= 1
+    b[0x400:0x410] = FCF.parse(bytes(b[0x400:0x410]), family=fam, revision=rev).export()
+    return bytes(b)
+
+
 LENGTHS = [0x38, 0x39, 0x3A, 0x3B, 0x3C, 0x3D, 0x3E, 0x3F, 0x40, 0x41, 0x48, 0x50, 0x1FF, 0x200, 0x201]
 
 
@@ -152,7 +167,15 @@ def gen_case(rng, row, draw, thorough=False):
     if mcxc:
         ln = max(ln, 0x410 + rng.choice([0, 1, 4, rng.randrange(0x400)]))
     tail = rng.choice([None, None, None, "marker", "marker", "marker_badver", "marker_shift"])
-    c["app"] = gen_app(rng, ln, tail).hex()
+    app = gen_app(rng, ln, tail)
+    if vx:
+        # the application of these devices carries its own flash configuration field: its life-cycle byte is an enum
+        b = bytearray(app)
+        b[0x40C] = rng.choice([0xFF, 0xFE, 0x90, 0x95, 0x9B, 0x6B])
+        app = bytes(b)
+    if mcxc:
+        app = _canon_bca_fcf(app, fam, rev, rng)
+    c["app"] = app.hex()
     c["tail"] = tail
     if _has(mixins, "LoadAddress", "LoadAddressOptional"):
         c["load"] = rng.choice([0, 0x1000, 0x20001000, 0x08001000, 0xFFFFFFFF, rng.getrandbits(32)])
@@ -326,6 +349,23 @@ def settings_of(obj, mixins):
     return s
 
 
+def owned_regions(case, mixins):
+    """mc56 images have no IVT: the tool writes its data into fixed places of the application itself and the parser
+    returns the image as the application.  These byte ranges belong to the tool, the payload is compared outside them."""
+    r = []
+    if _has(mixins, "CrcSignBca"):
+        r.append((0x3C4, 0x3D0))  # CRC start, byte count, expected value inside the BCA
+    if _has(mixins, "FcfObsolete") and case.get("lifecycle", 0xFF) != 0xFF:
+        r.append((0x40C, 0x40D))
+    if _has(mixins, "EccSignVx"):
+        r += [(0x360, 0x380), (0x380, 0x3C0), (0x410, 0x4A0)]  # image digest, signature, ISK certificate
+        if case.get("add_hash"):
+            r.append((0x4A0, 0x5E0))  # the whole "ISK Hash" sub-image is replaced (16 bytes of hash + fill)
+    if _has(mixins, "BcaObsolete"):
+        r.append((0x3E0, 0x3E8))  # BCA: image length, firmware version
+    return r
+
+
 def expected_settings(case, obj, mixins):
     """What parse(export(x)) has to give back, derived from the *input* case (not from the model)."""
     s = {}
@@ -353,12 +393,15 @@ def expected_settings(case, obj, mixins):
     if _has(mixins, "ManifestDigest"):
         s["digest"] = obj.manifest.digest_hash_algo.label if obj.manifest.digest_hash_algo else None
     if "lifecycle" in case:
-        s["lifecycle"] = case["lifecycle"]
+        # NOT_SET (0xFF) keeps the life cycle the application already carries
+        s["lifecycle"] = case["lifecycle"] if case["lifecycle"] != 0xFF else app[0x40C]
     return s
 
 
 def sig_range(obj, data, mixins):
     """[start, end) of the signature field inside the exported bytes, derived from the real object (None = no signature)."""
+    if _has(mixins, "EccSignVx"):
+        return (0x380, 0x3C0)
     if _has(mixins, "RsaSign"):
         n = obj.cert_block.signature_size
         return (len(data) - n, len(data))
@@ -446,10 +489,29 @@ def eval_case(case, row):
         fail("generated option set could not be constructed (harness or constructor problem)", r)
         return obs, fails
     obj, sp = r[1]
+    if "cert" in case and case["cert"]["kind"] in ("v1", "v21"):
+        if case["cert"]["kind"] == "v1":
+            obj.cert_block.alignment = 4    # the first thing the v1 collectors do
+        cb = pyres(obj.cert_block.export)   # as handed to the builder (v1: image_length still 0; v2.1: ISK signature is created here)
+        obs["cert"] = cb[1].hex() if cb[0] == "ok" else None
+        obs["cert_size"] = obj.cert_block.expected_size
+        obs["sig_size"] = obj.cert_block.signature_size
+    m = getattr(obj, "manifest", None)
+    if m is not None and getattr(m, "digest_hash_algo", None):
+        obs["digest"] = m.digest_hash_algo.label
+    for k in ("bca", "fcf"):
+        if getattr(obj, k, None) is not None:
+            obs[k] = getattr(obj, k).export().hex()
     r = pyres(obj.export)
     obs["export"] = r[1].hex() if r[0] == "ok" else r[0]
+    applen = len(bytes.fromhex(case["app"]))
+    must_reject = _has(mixins, "HmacMandatory") and applen + (-applen % 4) < 64   # no room for the HMAC behind the header
+    if must_reject:
+        if r[0] != "E:spsdk":
+            fail("an application shorter than 64 bytes is accepted for an image with HMAC (the HMAC lands inside the following block)", r[0], "E:spsdk")
+        return obs, fails
     if r[0] != "ok":
-        fail("export of an accepted option set raised", r)
+        fail("export of a valid option set raised", r)
         return obs, fails
     e = bytes(r[1])
     sr = sig_range(obj, e, mixins)
@@ -460,10 +522,6 @@ def eval_case(case, row):
     hk_ins = 0
     if _has(mixins, "HmacKeyStoreFinalize"):
         hk_ins = 32 + (1424 if case.get("ks", ["none"])[0] == "ks" else 0)
-    obs["cert_in"] = None
-    if "cert" in case and case["cert"]["kind"] in ("v1", "v21"):
-        obs["cert_size"] = obj.cert_block.expected_size
-        obs["sig_size"] = obj.cert_block.signature_size
     # ---------------- header words describe the emitted bytes
     if has_ivt:
         w20, w24, w28 = struct.unpack_from("<3I", e, 0x20)
@@ -513,7 +571,20 @@ def eval_case(case, row):
         return obs, fails
     got = got[1]
     exp = expected_settings(case, obj, mixins)
-    obs["parsed"] = got
+    obs["parsed"] = dict(got)
+    pc = getattr(p, "cert_block", None)
+    if pc is not None and "cert" in case and case["cert"]["kind"] in ("v1", "v21"):
+        x = pyres(pc.export)
+        obs["parsed_cert"] = x[1].hex() if x[0] == "ok" else x[0]
+    for k in ("bca", "fcf"):
+        if getattr(p, k, None) is not None:
+            obs["parsed"][k] = getattr(p, k).export().hex()
+    own = owned_regions(case, mixins)
+    if own and got.get("app") is not None:
+        got["app"] = mask(bytes.fromhex(got["app"]), *own).hex()
+        exp["app"] = mask(bytes.fromhex(exp["app"]), *own).hex()
+    if case.get("just_header"):
+        exp["app"] = exp["app"][:2 * 0x800]  # header-only export: the application data is not part of the image
     for k, v in exp.items():
         if k not in got:
             if v in (0, False, None, "", ["d", ""]):
@@ -529,12 +600,15 @@ def eval_case(case, row):
         p.add_hash = case["add_hash"]
         p.just_header = case["just_header"]
         p.cert_block.signature_provider = obj.cert_block.signature_provider
+    if case.get("just_header"):
+        return obs, fails  # a header-only export does not contain the application: nothing to re-export
     r = pyres(p.export)
     if r[0] != "ok":
         obs["reexport"] = r[0]
         fail("re-export of the parsed image raised", r, tag="ambiguous-class" if type(p).__name__ != cn else None)
     else:
         e2 = bytes(r[1])
+        obs["reexport_bytes"] = e2.hex()
         a, b = mask(e, sr, ir), mask(e2, sr, ir) if len(e2) == len(e) else e2
         obs["reexport"] = "same" if a == b else "diff"
         if a != b:
@@ -546,3 +620,260 @@ def eval_case(case, row):
 
 def _short(h):
     return h if len(h) <= 160 else {"len": len(h) // 2, "head": h[:64], "tail": h[-64:]}
+
+
+# ---------------------------------------------------------------------------------------------- model requests
+def _hx(b):
+    return bytes(b).hex() if len(b) else "-"
+
+
+def model_export_line(case, obs, shape, tzs, sig=b""):
+    kv = [f"shape={shape}", f"tzsize={tzs}", "app=" + (case["app"] or "-")]
+    if "load" in case:
+        kv.append(f"load={case['load']}")
+    if "ver" in case:
+        kv.append(f"ver={case['ver']}")
+    if "sub" in case:
+        kv.append(f"sub={case['sub']}")
+    if "tz" in case:
+        kv.append("tz=" + (case["tz"][0] if case["tz"][0] != "c" else "c:" + (case["tz"][1] or "-")))
+    if "hwk" in case:
+        kv.append(f"hwk={int(case['hwk'])}")
+    if "ks" in case:
+        kv.append("ks=" + ("none" if case["ks"][0] != "ks" else case["ks"][1] or "-"))
+    if "hkey" in case:
+        kv.append("hkey=" + case["hkey"])
+    if "iv" in case:
+        kv.append("iv=" + case["iv"])
+    if "reloc" in case:
+        kv.append("reloc=" + (",".join(f"{img or '-'}:{dst}" for img, dst in case["reloc"]) or "-"))
+    if obs.get("cert"):
+        kv += ["cert=" + obs["cert"], f"siglen={obs['sig_size']}", "sig=" + _hx(sig)]
+    if "fw" in case:
+        kv.append(f"fw={case['fw']}")
+    if obs.get("digest"):
+        kv.append("digest=" + obs["digest"])
+    if obs.get("bca"):
+        kv.append("bca=" + obs["bca"])
+    if obs.get("fcf"):
+        kv.append("fcf=" + obs["fcf"])
+    return "export " + " ".join(kv)
+
+
+def model_parse_line(op, case, obs, shape, tzs, data, sig=b""):
+    kv = [f"shape={shape}", f"tzsize={tzs}", "data=" + _hx(data)]
+    if "hkey" in case:
+        kv.append("dek=" + case["hkey"])
+    if obs.get("cert"):
+        kv += [f"siglen={obs['sig_size']}", f"certsize={obs['cert_size']}"]
+    if op == "reexport":
+        kv.append("sig=" + _hx(sig))
+    return op + " " + " ".join(kv)
+
+
+def real_settings_line(got, cert_hex):
+    """the model's `parsedStr` for the settings read from the real parsed object"""
+    def oh(x):
+        return "none" if x is None else (x or "-")
+    tz = got.get("tz", ["e", ""])
+    rel = got.get("reloc")
+    return (f"app={oh(got.get('app'))};load={got.get('load') or 0};ver={got.get('ver') or 0};sub={got.get('sub') or 0};"
+            f"tz={tz[0] if tz[0] != 'c' else 'c:' + (tz[1] or '-')};hwk={int(bool(got.get('hwk')))};"
+            f"ks={oh(got.get('ks') or None)};iv={got.get('iv') or '-'};"
+            f"reloc={'none' if rel is None else (','.join(f'{i or chr(45)}:{d}' for i, d, _ in rel) or '-')};cert={oh(cert_hex)};"
+            f"fw={got.get('fw') or 0};digest={got.get('digest') or 'none'};bca={oh(got.get('bca'))};fcf={oh(got.get('fcf'))}")
+
+
+# ---------------------------------------------------------------------------------------------- run
+ROWS = None
+FINDING_MC56 = "C01-mc56-image-without-type-field"
+
+
+def _worker_init():
+    import logging
+    logging.disable(logging.CRITICAL)
+
+
+def _work(task):
+    ri, seed, draws, thorough = task
+    row = ROWS[ri]
+    rng = random.Random(seed)
+    out = []
+    for d in range(draws):
+        case = gen_case(rng, row, d, thorough)
+        try:
+            obs, fails = eval_case(case, row)
+        except Exception as exc:  # noqa: BLE001  - never let the real code (or a harness slip) kill the run silently
+            import traceback
+            obs, fails = {}, [{"what": "evaluation of a case crashed: " + type(exc).__name__, "observed": traceback.format_exc()[-1500:],
+                               "expected": None, "tag": None}]
+        out.append((case, obs, fails))
+    return ri, out
+
+
+def short_case(case):
+    c = dict(case)
+    return c
+
+
+def check_generated_rows(ck, rows, meta):
+    """The statically extracted class table must be the live one (else the extractor is wrong: infrastructure error)."""
+    gen = {(r[0], r[1], r[2], r[3]): (r[4], tuple(meta["shapes"][r[5]][1]), meta["shapes"][r[5]][0], r[6], r[7]) for r in meta["rows"]}
+    live = {(r[0], r[1], r[2], r[3]): (r[4], tuple(r[6]), r[5], r[7], r[8]) for r in rows}
+    if gen != live:
+        only_g = sorted(set(gen) - set(live))[:5]
+        only_l = sorted(set(live) - set(gen))[:5]
+        diff = [(k, gen[k], live[k]) for k in gen if k in live and gen[k] != live[k]][:3]
+        raise Infra(f"generated MbiClasses table differs from the live database API: only generated {only_g}, only live {only_l}, different {diff}")
+    if meta.get("problems"):
+        raise Infra("extractor could not resolve: " + "; ".join(meta["problems"][:5]))
+
+
+def run(ck, only_rows=None):
+    import concurrent.futures
+    import logging
+    import multiprocessing
+    import vcore
+    global ROWS
+    logging.disable(logging.CRITICAL)
+    ck.lean_obligations(generated=["MbiClasses", "IvtConsts"])
+    drv = ck.driver()
+    meta = ck.generated_meta["MbiClasses"]
+    import time as _t
+    ck.extra["t_lean_s"] = round(_t.time() - ck.t0, 1)
+    ROWS = live_rows()
+    check_generated_rows(ck, ROWS, meta)
+    shape_idx = {(it, tuple(m)): i for i, (it, m) in enumerate(meta["shapes"])}
+    ck.assume("certificate blocks are opaque byte blocks with a declared length and signature size (X.509 / key parsing is `cryptography`'s); "
+              "the model is told both by the harness (Env), the cert-block-v1 size is recomputed from its header",
+              "signatures are opaque blobs of the length the certificate block announces; the model is given the signature the real provider returned",
+              "TrustZone, BCA and FCF blocks are fixed-length opaque blocks (register codecs: property C12); generated payloads carry them in normal form",
+              "BinaryImage sub-image bookkeeping is modelled as concatenation of byte strings (BinaryImage itself: property C16)",
+              "mc56 (Vx) images (no IVT): oracle only, with the tool-owned byte ranges of the application masked; not part of the Lean model",
+              "AES/SHA/HMAC/CRC of the model are the Lean reference implementations (validated by C09)")
+    draws = ck.budget(3, 40)
+    rows_sel = list(range(len(ROWS))) if only_rows is None else only_rows
+    tasks = [(ri, ck.rng.getrandbits(64), draws, not ck.quick) for ri in rows_sel]
+    s = ck.stream("export_parse", f"EVERY row of the MBI class table ({len(ROWS)} rows = family x revision x target x authentication; {len(shape_idx)} distinct mixin lists) x {draws} draws: "
+                  "payload lengths {0x38..0x41,0x48,0x50,0x1FF,0x200,0x201, random <= 8 KiB, multiples of 16/512 +-1}, tails resembling the relocation marker, load addresses, "
+                  "image versions, sub-types, TrustZone disabled/default/custom, HW-key flag, key store none/present/OTP, relocation tables of 1-4 entries, HMAC keys, counter IVs, "
+                  "RSA chains depth 1-3 / 2048-4096 bit with 1-4 roots, P-256/P-384 root sets of 1-4 with every signing root, +-ISK, ISK user data; "
+                  "non-trivial = distinct (row, option set, payload)")
+    s.exhaustive = False
+    sc = ck.stream("class_selection", "for every successfully parsed image: the class the parser selects among the family's classes vs the model's selectClass; "
+                   "non-trivial = distinct (family, revision, image)")
+    st = ck.stream("theorem_instances", "every generated case of an IVT class: the hypotheses (ClassWF, cfgWF) hold and the conclusions of parse_export / reexport / "
+                   "header_describes / total_len_sum evaluate to true in the compiled Lean model (non-vacuity of the theorem hypotheses on the generator's inputs)")
+    ctx = multiprocessing.get_context("fork")
+    nproc = min(8, os.cpu_count() or 2)
+    extra_drivers = []
+    if drv is not None:
+        for _ in range(3):
+            d = vcore.Driver(drv.exe)
+            ck.drivers.append(d)
+            extra_drivers.append(d)
+    drivers = ([drv] + extra_drivers) if drv is not None else []
+    groups = {}
+    for r in ROWS:
+        groups.setdefault((r[0], r[1]), []).append(r)
+    results = []
+    with ctx.Pool(nproc, initializer=_worker_init) as pool:
+        for ri, out in pool.imap_unordered(_work, tasks, chunksize=4):
+            results.append((ri, out))
+    results.sort(key=lambda x: x[0])
+    ck.extra["t_real_s"] = round(_t.time() - ck.t0, 1)
+    # ---- oracle results
+    model_jobs = []   # (key, lines, real answers, inputs)
+    for ri, out in results:
+        row = ROWS[ri]
+        fam, rev, tgt, auth, cn, itype, mixins, tzs, fixed = row
+        sh = shape_idx[(itype, mixins)]
+        vx = _has(mixins, "BcaTable")
+        fixed_conflict = fixed >= 0 and itype != fixed
+        for case, obs, fails in out:
+            inp = {"row": list(row[:5]), "case": case}
+            s.note((row[:5], case), cls=f"{tgt}/{auth}")
+            for f in fails:
+                finding = FINDING_MC56 if fixed_conflict else None
+                s.expect(False, inp, f["what"], f["observed"], f["expected"], finding=finding)
+            if not drivers or vx or "export" not in obs:
+                continue
+            e = obs["export"]
+            lines, real = [], []
+            if e.startswith("E:"):
+                lines.append(model_export_line(case, obs, sh, tzs))
+                real.append(e)
+            else:
+                eb = bytes.fromhex(e)
+                sr = obs.get("sig")
+                sig = eb[sr[0]:sr[1]] if sr else b""
+                lines.append(model_export_line(case, obs, sh, tzs, sig))
+                real.append("ok:" + e)
+                if "parsed" in obs and obs.get("parsed_cls") == cn:
+                    lines.append(model_parse_line("parse", case, obs, sh, tzs, eb))
+                    real.append("ok:" + real_settings_line(obs["parsed"], obs.get("parsed_cert")))
+                    if "reexport_bytes" in obs:
+                        e2 = bytes.fromhex(obs["reexport_bytes"])
+                        lines.append(model_parse_line("reexport", case, obs, sh, tzs, eb, e2[sr[0]:sr[1]] if sr else b""))
+                        real.append("ok:" + obs["reexport_bytes"])
+                if has_ivt_row(mixins):
+                    # the theorems' hypotheses and conclusions evaluated on this very case by the compiled model
+                    ln = model_export_line(case, obs, sh, tzs, sig).replace("export ", "thm ", 1)
+                    if "hkey" in case:
+                        ln += " dek=" + case["hkey"]
+                    if obs.get("cert"):
+                        ln += f" certsize={obs['cert_size']}"
+                    lines.append(ln)
+                    real.append("cwf=1 wf=1 rt=1 re=1 hdr=1 tl=1")
+                if "parsed_cls" in obs:
+                    cands = groups[(fam, rev)]
+                    lines.append("select fixed=%d cands=%s data=%s" % (fixed, ",".join(f"{shape_idx[(c[5], c[6])]}:{c[7]}" for c in cands), _hx(eb)))
+                    want = next(i for i, c in enumerate(cands) if c[4] == obs["parsed_cls"])
+                    real.append(f"sel:{want}")
+            model_jobs.append((inp, lines, real))
+    # ---- model answers (several driver processes)
+    if drivers:
+        chunks = [model_jobs[i::len(drivers)] for i in range(len(drivers))]
+
+        def ask(k):
+            flat = [ln for _, lines, _ in chunks[k] for ln in lines]
+            return drivers[k].batch(flat)
+        with concurrent.futures.ThreadPoolExecutor(len(drivers)) as ex:
+            answers = list(ex.map(ask, range(len(drivers))))
+        for k, chunk in enumerate(chunks):
+            pos = 0
+            for inp, lines, real in chunk:
+                for ln, r in zip(lines, real):
+                    a = answers[k][pos]
+                    pos += 1
+                    op = ln.split(" ", 1)[0]
+                    if op == "thm":
+                        st.note((inp["row"], hash(ln)))
+                        st.compare(inp, r, a, "a generated valid case does not satisfy the hypotheses (wf/cwf) or the conclusions (rt: parse(export)=canon, "
+                                   "re: re-export, hdr: header words, tl: total length) of the C01 theorems in the compiled model")
+                    elif op == "select":
+                        sc.note((inp["row"], hash(ln)))
+                        # the first class with the minimal mismatch: compare the *shape* selected (identical classes are interchangeable)
+                        sc.compare(inp, r, a.replace("ok:", "sel:"), "parser's class selection differs from the model's selectClass")
+                    else:
+                        s.compare({**inp, "op": op}, _short_line(r), _short_line(a), f"{op}: model differs from implementation")
+    ck.extra["t_model_done_s"] = round(_t.time() - ck.t0, 1)
+    ck.extra["rows"] = len(ROWS)
+    ck.extra["shapes"] = len(shape_idx)
+
+
+def has_ivt_row(mixins):
+    return _has(mixins, "Ivt", "IvtZeroTotalLength")
+
+
+def _short_line(x):
+    """long canonical lines are compared through a digest + length + head so that evidence stays readable"""
+    import hashlib
+    if len(x) <= 200:
+        return x
+    return f"{x[:96]}…len={len(x)} blake2={hashlib.blake2b(x.encode(), digest_size=8).hexdigest()}"
+
+
+def replay(ck, data):
+    """Re-run the rows of the failing cases (same seed gives the same cases); fall back to the full run."""
+    run(ck)
